@@ -127,7 +127,7 @@ def with_schedule(spec, sched, rng):
         spec['stop'] = {'sensor': 'enc', 'elem': 0, 'op': 'ge', 'thr': GEN.Q('AngularPosition', 1e-4, 'rad')}
         spec['schedule'] = [dict(run, T=GEN.Q('TimeInterval', 0.3, 'ms'))]
     elif sched == 'reset':
-        spec['schedule'] = [run, {'op': 'reset'}, {'op': 'reapply'}] + ([{'op': 'newsolver'}] if rng.random() < 0.5 else []) + [run, dict(run, T=GEN.Q('TimeInterval', 0.05, 'ms'))]
+        spec['schedule'] = [run, {'op': 'newpowertrain' if rng.random() < 0.5 else 'reset'}, {'op': 'reapply'}] + ([{'op': 'newsolver'}] if rng.random() < 0.5 else []) + [run, dict(run, T=GEN.Q('TimeInterval', 0.05, 'ms'))]
     elif sched == 'pwm0':
         # motor switched off from the first instant on (duty cycle exactly 0), then switched on by hand for a continuation
         spec['ic'] = dict(spec['ic'], pwm=0)
